@@ -279,14 +279,14 @@ ANSI = re.compile(r'\x1b\[[0-9;]*m')
 ERRLINE = re.compile(r'ERROR (?:\x1b\[\d+m)?(0x[0-9A-F]+): (?:\[E(\d+)\]|(Payload error following RDH))')
 
 
-def run_cli(binary, args, data=None, path=None, timeout=30, env=None):
+def run_cli(binary, args, data=None, path=None, timeout=30, env=None, cwd=None):
     """returns (rc, stdout bytes, stderr text); rc: 128+signal for signals, 'timeout' on timeout"""
     cmd = [binary] + ([path] if path else []) + args
     e = dict(os.environ)
     if env:
         e.update(env)
     try:
-        r = subprocess.run(cmd, input=data if path is None else None, capture_output=True, timeout=timeout, env=e)
+        r = subprocess.run(cmd, input=data if path is None else None, capture_output=True, timeout=timeout, env=e, cwd=cwd)
     except subprocess.TimeoutExpired:
         return 'timeout', b'', ''
     rc = r.returncode if r.returncode >= 0 else 128 - r.returncode
